@@ -421,6 +421,27 @@ def main(tier, seed):
                 disagreements += 1
                 res.violation("model ExpPP.v prints %s, exppp prints %s for the tree %s" % (" ".join(want), " ".join(got), src_tree(t)),
                               {"input_file": save("c07-rich-%d.exp" % k, text), "theorem_or_correspondence": "correspondence C07: coq/ExpPP.v vs pretty_expr.c"}, found_input=False)
+            # the reader of ExpParse.v (no operator precedence) applied to what exppp really printed
+            # must give the flattened source tree (Properties_C07 c07_text_determines_tree)
+            rtoks = []
+            for j, w in enumerate(got):
+                if w in ("(", ")"):
+                    rtoks.append(w)
+                elif w in ("-", "not") and (j == 0 or got[j - 1] == "(" or got[j - 1] in opid) and (w == "not" or j == 0 or got[j - 1] != ")"):
+                    rtoks.append("un%d" % opid[("u", w)])
+                elif w in opid:
+                    rtoks.append("op%d" % opid[w])
+                else:
+                    rtoks.append("a:" + w)
+            rcm, mo2, me = sh([drv], input=("F %s\nR %s\n" % (model_tree(t, opid), " ".join(rtoks))).encode(), timeout=60)
+            lines2 = mo2.split("\n")
+            evals += 1
+            hist["read_back_trees"] = hist.get("read_back_trees", 0) + 1
+            if len(lines2) < 2 or lines2[0] != lines2[1]:
+                disagreements += 1
+                res.violation("reading exppp's text '%s' without operator precedence (ExpParse.v) gives %s, the flattened source tree is %s" %
+                              (" ".join(got), lines2[1] if len(lines2) > 1 else "?", lines2[0] if lines2 else "?"),
+                              {"input_file": save("c07-rich-%d.exp" % k, text), "theorem_or_correspondence": "correspondence C07: coq/ExpParse.v parse vs exppp output"}, found_input=False)
     # string literals with apostrophes, dots and long dot-free stretches at every line length
     STR_SCHEMA = ("SCHEMA strs;\nENTITY e;\n nm : STRING;\nWHERE\n"
                   " w1 : nm <> 'the owner''s name of this product''s category is not the owner''s own idea of a name';\n"
